@@ -120,7 +120,7 @@ def run_property(ctx: core.Ctx, prop: str, prefixes: tuple, rich: bool) -> int:
     mc_viol = [{"clause": f"model:{v}", "kf": "", "detail": mc["out"][-2500:]} for v in mc["violated"]]
     gens = ctx.gen_json("AnnotateMC", ctx.cfg_with("Gen_Annotate.cfg", "one", MaxSteps=1))
     cases = sweep_cases(ctx, rnd, gens, 2 if q else 4, rich=rich)
-    evl = core.pmap(annhist.run_history, cases, chunksize=8)
+    evl = ctx.pmap(annhist.run_history, cases, chunksize=8)
     events, dropped = [], 0
     for es in evl:
         # a file the linter does not list (excluded name, or still empty because the header went to a .license
@@ -163,4 +163,4 @@ def run(ctx: core.Ctx) -> int:
 
 
 def replay(ctx: core.Ctx, path: str) -> int:
-    raise core.MachineryError("replay for the annotate family re-runs the case list; use the check with the same VERIF_SEED")
+    return core.generic_replay(ctx, path)
